@@ -6,7 +6,7 @@
 // Spaces (--space):
 //   graph   all assignments of a template to each of --files n files (see build_variants); --tset full|small; --rb k = number of
 //           xml:base variants on the root of the non-main files
-//   opts    main document = one include at each of 5 positions x the include-option catalogue x 8 forms of b.xml;
+//   opts    main document = one include at each of 5 positions x the include-option catalogue x 9 forms of b.xml;
 //           --pairs 1: additionally two includes (first+last child) x catalogue x every 4th catalogue entry x plain b.xml; --pairs 2: two includes
 //           (first+last child; nested+following sibling) x catalogue^2 x 3 forms of b.xml
 //   defects the minimised reproducers of KNOWN_DEFECTS, evaluated strictly (each is reported as a violation)
@@ -14,6 +14,7 @@
 //           itself with ASAN_OPTIONS=detect_leaks=1; --leak-selftest leaks one block per case to prove the check is live)
 #include "c20_ref.hpp"
 #include <unistd.h>
+#include <xercesc/xinclude/XIncludeDOMDocumentProcessor.hpp>
 using namespace xv;
 using namespace c20;
 
@@ -110,6 +111,20 @@ static XOut run_xerces(int api, const std::string& sys) {
             p.setErrorHandler(&h);
             p.parse(X16(sys).p());
             harvest(p.getDocument(), o);
+        } else if (api == 2) {  // XIncludeDOMDocumentProcessor on a document parsed without XInclude (top-down processing of a finished DOM)
+            XercesDOMParser p;
+            ErrH h; h.o = &o;
+            p.setDoNamespaces(true);
+            p.setDoXInclude(false);
+            p.setErrorHandler(&h);
+            p.parse(X16(sys).p());
+            DOMDocument* src = p.getDocument();
+            if (src && !o.isErr()) {
+                XIncludeDOMDocumentProcessor proc;
+                DOMDocument* res = proc.doXIncludeDOMProcess(src, (XMLErrorReporter*)&p);
+                struct RelD { DOMDocument* d; ~RelD() { if (d) d->release(); } } rel{res};
+                harvest(res, o);
+            }
         } else {
             static const XMLCh ls[] = {'L', 'S', 0};
             DOMImplementationLS* impl = (DOMImplementationLS*)DOMImplementationRegistry::getDOMImplementation(ls);
@@ -232,6 +247,8 @@ static std::string case_json(const Case& c) {
 static bool g_strict = false;   // defects space: known defects are reported
 static bool g_leak = false;     // leak space
 static bool g_leak_selftest = false;
+static int g_napi = 2;          // 0 XercesDOMParser, 1 DOMLSParser, 2 XIncludeDOMDocumentProcessor
+static const char* API_NAME[] = {"XercesDOMParser", "DOMLSParser", "XIncludeDOMDocumentProcessor"};
 
 static std::vector<std::string> filter_lines(const std::vector<std::string>& in) {
     std::vector<std::string> o;
@@ -286,9 +303,9 @@ static void evaluate(const Case& cs, Ctx& c) {
     }
     if (ex.unusedFallbackHasInclude) c.count("ref_unused_fallback_with_include");
     // ---- implementation, both APIs
-    XOut o[2];
+    XOut o[3];
     uint64_t reads0 = g_vfs->reads;
-    for (int api = 0; api < 2; api++) {
+    for (int api = 0; api < g_napi; api++) {
         o[api] = run_xerces(api, "/v/a.xml");
         c.count("parses");
     }
@@ -300,9 +317,9 @@ static void evaluate(const Case& cs, Ctx& c) {
     }
 #endif
     (void)reads0;
-    for (int api = 0; api < 2; api++) {
+    for (int api = 0; api < g_napi; api++) {
         XOut& x = o[api];
-        std::string tag = api ? "ls:" : "dom:";
+        std::string tag = api == 0 ? "dom:" : api == 1 ? "ls:" : "proc:";
         for (auto& e : x.errors) {
             std::string m = e.substr(2, e.find('|', 2) - 2);
             size_t q = m.find('\''); if (q != std::string::npos) m = m.substr(0, q);
@@ -311,7 +328,7 @@ static void evaluate(const Case& cs, Ctx& c) {
         if (!x.exc.empty() && api == 0) c.count("xerces_exc:" + x.exc);
         std::vector<std::pair<std::string, std::string>> disc;  // (kind, detail)
         if (x.runaway) disc.push_back({"runaway-inclusion", "more than " + std::to_string(GuardVfs::kOpenBudget) + " files opened"});
-        if (api == 0) { c.count("xerces_file_opens", x.opens); if (x.opens > 20) c.count("xerces_opens_over_20"); }
+        if (api == 0) { c.count("xerces_file_opens", x.opens); if (x.opens > 20) c.count("xerces_opens_over_20"); if (x.opens > 40) c.count("xerces_opens_over_40"); }
         if (x.exc.compare(0, 8, "FOREIGN:") == 0 || x.exc == "OutOfMemoryException") disc.push_back({"foreign-exception", x.exc});
         std::vector<std::string> got = filter_lines(x.lines);
         bool treeEq = false, baseEq = false;
@@ -320,6 +337,7 @@ static void evaluate(const Case& cs, Ctx& c) {
             else {
                 c.count(tag + "error_reported_as_expected");
                 std::string missing;
+                if (x.exc.empty())  // an exception ends processing: later errors cannot be reported any more
                 for (auto& k : ex.errs) {
                     const char* pat = err_class(k);
                     if (!pat) continue;
@@ -369,11 +387,11 @@ static void evaluate(const Case& cs, Ctx& c) {
             if (defect.empty()) allKnown = false;
             defects.push_back(defect);
         }
-        if (allKnown && !g_strict) { if (api == 0) for (auto& d : std::set<std::string>(defects.begin(), defects.end())) c.count("known_defect:" + d); continue; }
+        if (allKnown && !g_strict) { if (api != 1) for (auto& d : std::set<std::string>(defects.begin(), defects.end())) c.count((api == 2 ? "proc:known_defect:" : "known_defect:") + d); continue; }
         for (size_t di = 0; di < disc.size(); di++) {
             auto& d = disc[di];
             const std::string& defect = defects[di];
-            std::string f = "\"api\":" + jstr(api ? "DOMLSParser" : "XercesDOMParser") + (defect.empty() ? "" : ",\"defect\":" + jstr(defect)) +
+            std::string f = "\"api\":" + jstr(API_NAME[api]) + (defect.empty() ? "" : ",\"defect\":" + jstr(defect)) +
                             ",\"detail\":" + jstr(d.second) + ",\"ref_errors\":" + jstr(joins(ex.errs)) + ",\"input\":" + case_json(cs) +
                             ",\"expected\":" + jstr(joinv(exp, "  ")) + ",\"observed\":" + jstr(joinv(got, "  ")) +
                             ",\"expected_bases\":" + jstr(joinv(ebases, " ")) + ",\"observed_bases\":" + jstr(joinv(x.bases, " ")) +
@@ -393,8 +411,8 @@ static void evaluate(const Case& cs, Ctx& c) {
         printf("---- case %s\n", cs.label.c_str());
         for (auto& f : cs.files) printf("  %s: %s\n", f.first.c_str(), f.second.c_str());
         printf("  reference: %s\n    tree: %s\n    bases: %s\n", refErr ? ("ERROR " + joins(ex.errs)).c_str() : "ok", joinv(exp, "  ").c_str(), joinv(ebases, " ").c_str());
-        for (int api = 0; api < 2; api++)
-            printf("  %s: doc=%d F=%d E=%d W=%d exc=%s\n    errors: %s\n    tree: %s\n    bases: %s\n", api ? "DOMLSParser" : "XercesDOMParser", o[api].hasDoc, o[api].fatals, o[api].errs,
+        for (int api = 0; api < g_napi; api++)
+            printf("  %s: doc=%d F=%d E=%d W=%d exc=%s\n    errors: %s\n    tree: %s\n    bases: %s\n", API_NAME[api], o[api].hasDoc, o[api].fatals, o[api].errs,
                    o[api].warns, o[api].exc.c_str(), joinv(o[api].errors, " ;; ").c_str(), joinv(filter_lines(o[api].lines), "  ").c_str(), joinv(o[api].bases, " ").c_str());
     }
 }
@@ -476,6 +494,8 @@ static void build_catalogue() {
     bf(TP_DOCELEM, C, 0, 1);    // 5 b's document element is an include of c
     bf(TP_FIRST, C, 1, 0);      // 6 relative xml:base on the root and an include resolved against it
     bf(TP_NESTED, B, 0, 0);     // 7 b includes itself
+    bf(TP_TWO_FL, C, 0, 0);     // 8 b includes c twice (sibling includes processed with one inclusion history)
+    O_bforms.back().inc[1].tgt = C;
 }
 static const int O_POS[] = {TP_DOCELEM, TP_FIRST, TP_MIDDLE, TP_LAST, TP_NESTED};
 static bool O_singles = true;
@@ -581,6 +601,7 @@ int main(int argc, char** argv) {
         extra = "\"bounds\":{\"catalogue\":" + std::to_string(O_cat.size()) + ",\"bforms\":" + std::to_string(O_bforms.size()) + ",\"pairs\":" + std::to_string(O_pairs) + "}";
     }
     if (a.has("strict")) g_strict = a.num("strict") != 0;
+    g_napi = (int)a.num("apis", 2);
     if (a.has("list-defects")) { for (auto& d : KNOWN_DEFECTS) printf("%s: %s\n", d.id, d.what); return 0; }
     R.fn = run_case;
     R.describe = [](uint64_t i) { Case cs; if (!make_case(i, cs)) return std::string("\"pruned\""); return case_json(cs); };
